@@ -13,6 +13,17 @@ export GOFLAGS="-mod=mod $VERIF_MODFLAG"
 export GODEBUG=goindex=0   # the module-cache index ignores -overlay (new imports in instrumented files)
 if ! go build -o "$scratch/vinstr" ./cmd/vinstr 2>"$scratch/log"; then cat "$scratch/log" >&2; echo "BROKEN: vinstr build failed" >&2; exit 2; fi
 if ! "$scratch/vinstr" -dir /verif -out "$scratch/instr" -stats "$scratch/instr-stats.json" "$@" >"$scratch/log" 2>&1; then cat "$scratch/log" >&2; echo "BROKEN: instrumentation failed" >&2; exit 2; fi
+# VERIF_EXTRA_OVERLAY="dst=src;dst=src": files ADDED to packages (export shims for unexported state)
+if [ -n "${VERIF_EXTRA_OVERLAY:-}" ]; then
+  python3 - "$scratch/instr/overlay.json" "$VERIF_EXTRA_OVERLAY" <<'PY' || { echo "BROKEN: extra overlay" >&2; exit 2; }
+import json,sys
+p=sys.argv[1]; o=json.load(open(p))
+for pair in sys.argv[2].split(';'):
+    if pair:
+        d,s=pair.split('=',1); o['Replace'][d]=s
+json.dump(o,open(p,'w'),indent=1)
+PY
+fi
 if ! go build -overlay "$scratch/instr/overlay.json" -o "$scratch/$lc" ./props/$lc 2>"$scratch/log"; then cat "$scratch/log" >&2; echo "BROKEN: instrumented build of $lc failed" >&2; exit 2; fi
 shift $#
 VERIF_INSTR_STATS="$scratch/instr-stats.json" "$scratch/$lc" --tier "$tier" ${VERIF_ARGS:-}
